@@ -14,8 +14,8 @@ EXPLANATION = (
     "(STRATEGY) MultiLine is constructed only on the true edge of multi_line_with_matcher and the line "
     "strategies only on its false edge; (INVERT) both delivery routines obtain matches only through "
     "MultiLine::find and advance through MultiLine::advance; plus the stop/finish discipline of C16 restricted "
-    "to the MultiLine functions. Leftmost/non-overlapping enumeration, merging arithmetic and `locate` are "
-    "value-level and not decided. (ADVANCE) after a match the scan resumes exactly at its end, one byte further only after an empty match that is not at the end of the buffer, and both delivery routines advance with the match they found.")
+    "to the MultiLine functions. Leftmost/non-overlapping enumeration, merging arithmetic is "
+    "value-level and not decided. (LOCATE) every routine that maps a match to its lines by a forward terminator scan first tests whether the match already ends with the terminator. (ADVANCE) after a match the scan resumes exactly at its end, one byte further only after an empty match that is not at the end of the buffer, and both delivery routines advance with the match they found — the match itself, never its line range; the cursor may jump to the end of the matched lines only below a further find().")
 NOT_DECIDED = [
     "leftmost / non-overlapping enumeration, the +1 after an empty match",
     "the merge condition last_match.end() >= line.start() and lines::locate arithmetic",
@@ -98,7 +98,7 @@ def run(ctx):
                 # advance must be on every path from a Some(match) to the next delivery/return Ok(true)
                 r.ok(name, "%d find site(s), %d advance site(s), no direct matcher call" % (len(finds), len(adv)), fn=f)
 
-    with ctx.rule("C13.ADVANCE", "after a match the scan resumes at its end, one byte further only after an empty match", floor=2,
+    with ctx.rule("C13.ADVANCE", "after a match the scan resumes at its end, one byte further only after an empty match", floor=6,
                   kind="FLOW/GUARD") as r:
         f = facts.fn(ML + "::advance")
         eb = ExprBuilder(f)
@@ -134,7 +134,78 @@ def run(ctx):
                 r.ok("caller|" + name, "advance(<the range found by find()>)", fn=g)
             else:
                 r.bad("caller|" + name, "%s advances past something other than the match it found" % name, fn=g, construct="advance")
+            # ... with the match itself, not with the lines it lies on: resuming at the end of the *line* skips every match
+            # that starts on the rest of that line (and may reach into following lines, which inversion then reports)
+            LOC = "grep_searcher::lines::locate"
+            nopart = lambda e: e.k == "partial"    # field writes into *self are not part of the value passed
+            widened = [c for c in adv if mentions_call(ebg.operand(c.args[1]), LOC, stop=nopart)]
+            if adv and not widened:
+                r.ok("exact|" + name, "advance() receives the match, not its line range", fn=g)
+            elif adv:
+                r.bad("exact|" + name, "%s resumes the scan at the end of the matched *lines* (advance(locate(match))): a later match "
+                      "that starts on the last of those lines is never found, so with inversion the lines it reaches are reported "
+                      "as non-matching" % name, fn=g, loc=widened[0].loc, construct="advance-line")
+            # a jump of the cursor to a line end is allowed only after a further find() showed nothing starts before it
+            finds = g.calls_to(ML + "::find")
+            for c in g.calls_to(CORE_ + "::set_pos"):
+                a_ = ebg.operand(c.args[1])
+                if not mentions_call(a_, LOC, stop=nopart):
+                    continue
+                first = [fc for fc in finds if all(C.dominates(g, fc.bb, o.bb) for o in finds)]
+                later = [fc for fc in finds if fc not in first and C.dominates(g, fc.bb, c.bb)]
+                if later:
+                    r.ok("skip|" + name, "cursor jumps to the line end only below a second find() (nothing starts before it)", fn=g)
+                else:
+                    r.bad("skip|" + name, "%s moves the cursor to the end of the matched lines without a further find(): matches starting "
+                          "on the rest of the last line are skipped" % name, fn=g, loc=c.loc, construct="advance-line")
 
+    with ctx.rule("C13.LOCATE", "a line locator never extends a range that already ends with the terminator", floor=1, kind="GUARD") as r:
+        # Any searcher routine that turns a Match into the Match of its lines by scanning forward from range.end() for the
+        # terminator must first ask whether the byte before range.end() is the terminator: otherwise a match ending with
+        # its line's terminator drags the following line into the reported range.
+        FIND = ("bstr::ext_slice::ByteSlice::find_byte", "memchr::memchr::memchr", "memchr::memchr")
+        n = 0
+        for f in facts.fns_in("grep_searcher::"):
+            if f.kind == "closure" or "::tests::" in f.path or f.d.get("output") != "grep_matcher::Match":
+                continue
+            eb = ExprBuilder(f)
+            fwd = [c for c in f.calls() if c.path in FIND and
+                   any(is_call(x, "core::ops::index::Index::index") and any(y.k == "agg" and "RangeFrom" in y[1] and
+                       mentions_call(y, "grep_matcher::Match::end") for y in walk(x)) for x in walk(eb.operand(c.args[0])))]
+            if not fwd:
+                continue
+            n += 1
+
+            def ends_with_term(e):
+                if not (e.k == "bin" and e[1] == "Eq"):
+                    return False
+                for a_ in (e[2], e[3]):
+                    if any(x.k == "bin" and x[1] in ("Sub", "SubWithOverflow") and mentions_call(x, "grep_matcher::Match::end")
+                           for x in walk(a_)) or any(x.k == "idx" and mentions_call(x, "grep_matcher::Match::end") for x in walk(a_)):
+                        return True
+                return False
+            sw = cond_switches(f, ends_with_term, eb)
+            key = "locator|" + f.path.split("grep_searcher::", 1)[1]
+            def decided(c):
+                # the scan is not reachable once the test said "ends with the terminator", and it sits below the test
+                # (or below the head of the `&&` chain the test belongs to)
+                for bb, te, fe, e in sw:
+                    if c.bb in C.reach(f, [te[1]]):
+                        return False
+                heads = {bb for bb, te, fe, e in sw}
+                for bb, te, fe, e in sw:
+                    for i, b in enumerate(f.blocks):
+                        if C.bool_switch(f, i) and C.dominates(f, i, bb):
+                            heads.add(i)
+                return any(C.dominates(f, h, c.bb) for h in heads)
+            if sw and all(decided(c) for c in fwd):
+                r.ok(key, "forward scan for the terminator only when bytes[range.end()-1] != terminator", fn=f)
+            else:
+                r.bad(key, "%s scans forward from range.end() for the next terminator without first checking that the range "
+                      "does not already end with one: a match ending in its line's terminator is reported together with the "
+                      "following line" % f.path, fn=f, loc=fwd[0].loc, construct="locate")
+        if not n:
+            r.bad("locator", "anchor-missing: no line locator (Match → Match via forward terminator scan) found in grep_searcher")
     with ctx.rule("C13.STOP", "C16 stop discipline restricted to MultiLine (shared rule)", floor=12, kind="STOP/A3") as r:
         c16.stop_rule(ctx, r, only=lambda p: p.startswith(ML + "::"))
     with ctx.rule("C13.FINISH", "Core::finish exactly once in MultiLine::run (shared rule)", floor=1, kind="ONCE") as r:
